@@ -15,6 +15,57 @@ import os, re, json
 from . import lib
 from . import c19_util as U
 
+# KNOWN FINDING (not fixed in /repo, see known_findings.txt and design.d/C19.md): grisu3_diy_fp_encode_double declares a
+# truncated result exact for doubles with biased exponent 2..11 (2^-1021 <= |x| < 2^-1011). Only failures inside that
+# class get the specific keys below; every other float/double failure keeps its generic key.
+GRISU_CLASS = 'grisu3-diy-fp:biased-exp-2..11'
+
+
+def in_grisu_class(bits64):
+    return 2 <= ((bits64 >> 52) & 0x7ff) <= 11
+
+
+def parse_double_key(text, want_bits, got_bits):
+    """key for "parse of this decimal text gave got_bits, correct rounding gives want_bits". The result of
+    grisu3_diy_fp_encode_double is only ever used when the value is below 2^-1010 (biased exponent <= 11; everything else
+    goes to strtod), and there it shows three symptoms of the known finding; anything else keeps the generic key."""
+    generic = 'corr:parse-double-rounding'
+    be = (want_bits >> 52) & 0x7ff
+    if be > 11: return generic
+    if abs(got_bits - want_bits) == 1:
+        return generic + ':grisu3-diy-fp:' + ('biased-exp-2..11' if be >= 2 else 'denormal-one-ulp')
+    # surplus fractional zeros counted into the exponent (grisu3_parse_double): needs >= 20 mantissa digits and a fraction;
+    # the result is the value times a power of ten
+    mant = re.split('[eE]', text.lstrip('-'))[0]
+    if '.' in mant and len(mant.replace('.', '').lstrip('0')) >= 20:
+        w, g = U.bits2d(want_bits & ~(1 << 63)), U.bits2d(got_bits & ~(1 << 63))
+        if w > 0 and g > w and (got_bits >> 63) == (want_bits >> 63) and U.finite64(got_bits):
+            import math
+            k = int(round(math.log10(g / w)))
+            if k >= 1 and abs(g - w * 10.0 ** k) <= max(2e-323 * 10.0 ** k, 1e-9 * g):
+                return generic + ':grisu3-surplus-fraction-zeros:below-2^-1010'
+    return generic
+
+
+def grisu_ub_key(fname, lno, msg):
+    """UBSan reports inside grisu3_diy_fp_encode_double (located by the function's line range in the current sources) are keyed
+    by function + kind of report; reports anywhere else keep file:line keys"""
+    try:
+        src = open(os.path.join(lib.REPO, 'include', 'flatcc', 'portable', fname)).read().split('\n')
+    except OSError:
+        return None
+    start = end = None
+    for n, l in enumerate(src, 1):
+        if start is None and l.startswith('static int grisu3_diy_fp_encode_double('): start = n
+        elif start is not None and l.startswith('}'): end = n; break
+    if start is None or end is None or not (start <= lno <= end): return None
+    if msg.startswith('shift exponent -1 is negative'): kind = 'shift'
+    elif msg.startswith('shift exponent') and 'too large' in msg: kind = 'shift-too-large'
+    elif msg.startswith('signed integer overflow'): kind = 'int-overflow'
+    else: return None
+    return 'grisu3-parse-ub:diy_fp_encode_double-' + kind
+
+
 TERMS = [b',', b'}', b']', b' ', b'\n', b'\t', b'\r', b'']       # what the JSON scanner allows after a number; b'' = end of buffer
 TWO64 = 2 ** 64
 
@@ -123,7 +174,7 @@ def run(ctx):
     for shard, err in ierrs:
         for fname, lno, msg in U.ubsan_reports(err):
             if msg.startswith('negation of'): key = 'signed-min-negation-ub'
-            elif fname.startswith('grisu3_parse'): key = 'grisu3-parse-ub'
+            elif fname == 'grisu3_parse.h' and grisu_ub_key(fname, lno, msg): key = grisu_ub_key(fname, lno, msg)
             else: key = 'ubsan:%s:%d' % (fname, lno)
             if any(v['key'] == key for v in ctx.violations): continue
             trig = U.find_trigger(exe_san, shard, fname, lno)
@@ -302,7 +353,9 @@ def gen_cases(ctx, rng, add, impl_only, doc_expect):
         f32.add(rng.getrandbits(31)); f64.add(rng.getrandbits(63))
         f64.add(rng.getrandbits(52))                               # denormal
         f64.add((rng.randrange(1, 16) << 52) | rng.getrandbits(52))  # lowest binades
+    f64.add(32242815376328263)           # 1.6509595210255934e-306: the recorded replay of the known grisu3 finding
     f32 = sorted(b for b in f32 if U.finite32(b)); f64 = sorted(b for b in f64 if U.finite64(b))
+    f64.remove(32242815376328263); f64.insert(0, 32242815376328263)
     for b in f32:
         impl_only.append(('float_rt', 'rtf %d' % b))
         if rng.random() < 0.3: impl_only.append(('float_rt', 'rtf %d' % (b | 0x80000000)))
@@ -379,7 +432,8 @@ def prop_int_parse(cmd, ty, text, irep):
     if not digits: return None                      # not an integer text: the property says nothing
     mag = int(digits); v = -mag if neg else mag
     fam = 'json' if cmd[0] == 'j' else 'parse'
-    fn = {'jint': 'flatcc_json_parser_integer', 'pint': 'parse_integer', 'jtyp': 'flatcc_json_parser_%s' % ty, 'ptyp': 'parse_%s' % ty}[cmd]
+    cty = ('uint' + ty[1:] if ty[0] == 'u' else 'int' + ty[1:]) if ty else ''
+    fn = {'jint': 'flatcc_json_parser_integer', 'pint': 'parse_integer', 'jtyp': 'flatcc_json_parser_%s' % cty, 'ptyp': 'parse_%s' % cty}[cmd]
     floaty = rest[:1] in (b'.', b'e', b'E')
     other_reject = fam == 'parse' and rest[:1] in (b'p', b'P')      # pparseint.h also refuses hex-float exponents
     ok = irep.startswith('OK')
@@ -437,7 +491,9 @@ def judge_impl_only(ctx, klass, line, i, doc_expect, oracle_q):
         name = 'float' if w == 32 else 'double'
         val = U.bits2f(bits) if w == 32 else U.bits2d(bits)
         if int(pbits) != bits or int(pk) != len(text):
-            viol(ctx, '%s-roundtrip' % name, 'print_%s(bits %d = %r) = "%s", parse_%s gives bits %s (consumed %s of %d): print then parse is not the identity'
+            rkey = '%s-roundtrip' % name
+            if w == 64 and in_grisu_class(bits) and int(pk) == len(text) and abs(int(pbits) - bits) == 1: rkey += ':' + GRISU_CLASS
+            viol(ctx, rkey, 'print_%s(bits %d = %r) = "%s", parse_%s gives bits %s (consumed %s of %d): print then parse is not the identity'
                  % (name, bits, val, text, name, pbits, pk, len(text)), line, None, i, {'text': text})
         elif jb != str(bits) or int(jk) != len(text):
             viol(ctx, '%s-roundtrip-json' % name, 'print_%s(bits %d = %r) = "%s", flatcc_json_parser_%s gives %s (consumed %s)' % (name, bits, val, text, name, jb, jk), line, None, i, {'text': text})
@@ -487,7 +543,8 @@ def judge_impl_only(ctx, klass, line, i, doc_expect, oracle_q):
             viol(ctx, 'corr:float-consumed', '%s("%s") consumed %s of %d characters' % (name, text, k, len(text)), line, None, i); return
         if w == 64:
             oracle_q.append(('%s("%s") = bits %s, but the text does not round (to nearest even) to that double' % (name, text, b),
-                             'rt 64 %s %d %d %d' % (b, ng, m, e), '1', 'corr:parse-double-rounding', {'harness_line': line, 'text': text, 'python_float_bits': want_bits}))
+                             'rt 64 %s %d %d %d' % (b, ng, m, e), '1',
+                             parse_double_key(text, want_bits, int(b)), {'harness_line': line, 'text': text, 'python_float_bits': want_bits}))
         elif int(b) != want_bits:
             # float = (float)(double) by design; judged against the same two-step rounding
             viol(ctx, 'corr:parse-float-rounding', '%s("%s") = bits %s, two-step rounding gives %d' % (name, text, b, want_bits), line, None, i)
@@ -513,7 +570,7 @@ def judge_impl_only(ctx, klass, line, i, doc_expect, oracle_q):
             stored = d if ty == 'd' else U.bits2f(U.f2bits(d))
             if stored == 0.0: same = float(got) == 0.0   # a zero (of either sign) is the default and is not stored
             if not same:
-                viol(ctx, 'corr:parse-%s-rounding' % ('double' if ty == 'd' else 'float'), 'parse + print of %s gives %r, expected %r' % (doc, got, d), line, None, i)
+                viol(ctx, parse_double_key(s, U.d2bits(d), U.d2bits(float(got))) if ty == 'd' else 'corr:parse-float-rounding', 'parse + print of %s gives %r, expected %r' % (doc, got, d), line, None, i)
             return
         if want is None:
             if i.startswith('OK'):
@@ -584,6 +641,9 @@ def sweeps(ctx, rng, exe_fast, exe_san, model):
                            ('jtyp u%d %s' % (w, U.hx(str(first).encode() + b'}')), True), ('jtyp i%d %s' % (w, U.hx(str(s).encode() + b'}')), True)]
             else:
                 follow.append((('rtf %d' if cmd == 'fsweep32' else 'rtd %d') % first, False))
+                if cmd == 'frand64' and len(r) >= 7 and int(r[5]) != 0:
+                    ctx.log('sweep %s: %s mismatches outside biased exponent 2..11, first at %s' % (line, r[5], r[6]))
+                    follow.append(('rtd %s' % r[6], False))
             ctx.sweep_bad = getattr(ctx, 'sweep_bad', []) + [(line, rep[0])]
     if follow:
         nv = getattr(ctx, 'nviol_calls', 0)
